@@ -1,13 +1,13 @@
 package proto
 
 import (
-	"time"
 	"encoding/json"
 	"fmt"
 	"os"
 	"strconv"
 	"strings"
 	"sync"
+	"time"
 
 	"verif/props/core"
 	"verif/vsched"
